@@ -282,7 +282,7 @@ def main(tier, seed):
         samples=[dict(operation=c['op'], result=c['res'], states_before=[n for n, _ in c['pre']['states']],
                       states_after=[n for n, _ in c['post']['states']]) for c in cases[:3]],
         source_blobs=repo_blob_ids(['sismic/model/statechart.py', 'sismic/model/elements.py']),
-        proof_info={k: info.get(k) for k in ('build_ok', 'ok', 'closed', 'axioms', 'forbidden_tokens', 'note')})
+        proof_info={k: info.get(k) for k in ('build_ok', 'ok', 'closed', 'axioms', 'forbidden_tokens', 'note', 'coqchk')})
     write_evidence(PROP, tier, seed, t0, cov,
                    ['transitions are referred to by index (identity of equal-but-distinct Transition objects is not modelled)',
                     'state names are strings (name None not modelled)'], n_viol)
